@@ -87,7 +87,7 @@ func describeFile(data []byte, sr bool, flags mp4.DecFileFlags) decoded {
 	if p != "" || err != nil {
 		return decoded{p: p}
 	}
-	d := decoded{ok: true, dump: infoText(f), group: fileObs(f)}
+	d := decoded{ok: true, dump: infoText(f), group: fileObs(f) + "|top=" + topObs(f)}
 	g, _, _ := decFile(data, sr, flags)
 	g.FragEncMode = mp4.EncModeBoxTree
 	var b bytes.Buffer
@@ -146,6 +146,8 @@ func agreeFails(site string, a, b decoded, an, bn string) []string {
 			fails = append(fails, fmt.Sprintf("FAIL\t%s\tdump-differs\t%s vs %s structure dumps differ", site, xn, yn))
 		case x.group != y.group:
 			fails = append(fails, fmt.Sprintf("FAIL\t%s\tgrouping-differs\t%s: %s / %s: %s", site, xn, x.group, yn, y.group))
+		case !y.repro:
+			fails = append(fails, fmt.Sprintf("FAIL\t%s\treencoding-differs\t%s reproduces the input on re-encoding, the structure decoded by %s does not", site, xn, yn))
 		}
 	}
 	chk(a, b, an, bn)
@@ -202,7 +204,9 @@ func describeBox(data []byte, sr bool) decoded {
 	if p != "" || err != nil || b == nil {
 		return decoded{p: p}
 	}
-	d := decoded{ok: true, dump: infoText(b), group: fmt.Sprintf("%x:%d", b.Type(), b.Size())}
+	var sb strings.Builder
+	dumpBox3(b, &sb)
+	d := decoded{ok: true, dump: infoText(b), group: sb.String()}
 	c, _, _ := decBox(data, sr)
 	var buf bytes.Buffer
 	if guard(func() { err = c.Encode(&buf) }) == "" && err == nil && bytes.Equal(buf.Bytes(), data) {
@@ -320,6 +324,8 @@ func runJob3(j job) string {
 		return fileAgree(j.data, j.cfg)
 	case "X3":
 		return boxAgree(j.data)
+	case "L3":
+		return fileBoth(j.data)
 	case "E3":
 		var r string
 		mode := mp4.EncFragFileMode(j.cfg[3] - '0')
@@ -379,9 +385,23 @@ func cmdCorr3(seed uint64, n int, exh int) {
 			metas = append(metas, "E\t"+c+"\t"+fn)
 		}
 	}
+	// B: box trees with many 16-byte headers through DecodeBox / DecodeBoxSR; L: byte-level files through both file decoders
+	bin := genB3Inputs(r, n)
+	for _, d := range bin {
+		jobs = append(jobs, job{kind: "B", cfg: "-", data: d})
+		metas = append(metas, "B\t"+hx.Hex(d))
+	}
+	for _, d := range genL3Inputs(r, n) {
+		jobs = append(jobs, job{kind: "L3", cfg: "-", data: d})
+		metas = append(metas, "L\t"+hx.Hex(d))
+	}
 	res := runJobs(jobs, nprocs())
 	for i, m := range metas {
-		if m[0] == 'D' {
+		if m[0] == 'B' {
+			fmt.Fprintf(out, "B\tb%d\t%s\t%s\n", i, m[2:], projectB(res[i]))
+		} else if m[0] == 'L' {
+			fmt.Fprintf(out, "L\tl%d\t%s\t%s\n", i, m[2:], res[i])
+		} else if m[0] == 'D' {
 			obs := projectResult(res[i])
 			if k := strings.Index(obs, "|i="); k >= 0 {
 				obs = obs[:k]
@@ -436,6 +456,9 @@ func cmdSearch3(seed uint64, n int) {
 		jobs = append(jobs, job{kind: "F3", cfg: "RN0", data: d})
 		descs = append(descs, "seed:"+hx.Hex(d))
 	}
+	lj, ld := largeSearchJobs(r, n)
+	jobs = append(jobs, lj...)
+	descs = append(descs, ld...)
 	seen := map[string]bool{}
 	perBox := n / 300
 	if perBox < 5 {
